@@ -17,26 +17,28 @@ impl RoughPos {
         use EndArea as End;
         use StartArea::{Clipped, Found, Gap, TillEnd, Window};
 
+        // The search areas of a short range overlap: none of the differences below
+        // is ordered by construction, so all of them saturate at zero.
         let estimate_in_bytes =
             match (self.start_search_area.clone(), self.end_search_area.clone()) {
                 (Found(start) | Gap { stops: start }, End::Found(end)) => Estimate {
-                    max: end - start,
-                    min: end - start,
+                    max: end.raw_offset().saturating_sub(start.raw_offset()),
+                    min: end.raw_offset().saturating_sub(start.raw_offset()),
                 },
                 (Found(start) | Gap { stops: start }, End::Gap { start: end }) => {
                     Estimate {
-                        max: end.raw_offset() - start.raw_offset(),
-                        min: end.raw_offset() - start.raw_offset(),
+                        max: end.raw_offset().saturating_sub(start.raw_offset()),
+                        min: end.raw_offset().saturating_sub(start.raw_offset()),
                     }
                 }
                 (Found(start) | Gap { stops: start }, End::TillEnd(end)) => Estimate {
-                    max: data_len - start.0,
-                    min: end - start,
+                    max: data_len.saturating_sub(start.0),
+                    min: end.raw_offset().saturating_sub(start.raw_offset()),
                 },
                 (Found(start) | Gap { stops: start }, End::Window(end_min, end_max)) => {
                     Estimate {
-                        max: end_max.raw_offset() - start.raw_offset(),
-                        min: end_min - start,
+                        max: end_max.raw_offset().saturating_sub(start.raw_offset()),
+                        min: end_min.raw_offset().saturating_sub(start.raw_offset()),
                     }
                 }
 
@@ -59,15 +61,18 @@ impl RoughPos {
                 },
 
                 (TillEnd(start), End::Found(end)) => Estimate {
-                    max: end - start,
+                    max: end.raw_offset().saturating_sub(start.raw_offset()),
                     min: 1,
                 },
                 (TillEnd(start), End::Gap { start: end }) => Estimate {
-                    max: end.line_start(payload_size) - start,
+                    max: end
+                        .line_start(payload_size)
+                        .raw_offset()
+                        .saturating_sub(start.raw_offset()),
                     min: 1,
                 },
                 (TillEnd(start), End::TillEnd(_)) => Estimate {
-                    max: data_len - start.raw_offset(),
+                    max: data_len.saturating_sub(start.raw_offset()),
                     min: 1,
                 },
                 (TillEnd(_), End::Window(_, _)) => unreachable!(
@@ -76,21 +81,27 @@ impl RoughPos {
             ),
 
                 (Window(start_min, start_max), End::Found(end)) => Estimate {
-                    max: end - start_min,
-                    min: end - start_max.line_start(payload_size),
+                    max: end.raw_offset().saturating_sub(start_min.raw_offset()),
+                    min: end
+                        .raw_offset()
+                        .saturating_sub(start_max.line_start(payload_size).raw_offset()),
                 },
                 (Window(start_min, start_max), End::Gap { start: end }) => Estimate {
-                    max: end.raw_offset() - start_min.raw_offset(),
-                    min: end - start_max,
+                    max: end.raw_offset().saturating_sub(start_min.raw_offset()),
+                    min: end.raw_offset().saturating_sub(start_max.raw_offset()),
                 },
                 (Window(start_min, start_max), End::TillEnd(end)) => Estimate {
-                    max: data_len - start_min.raw_offset(),
-                    min: end - start_max.line_start(payload_size),
+                    max: data_len.saturating_sub(start_min.raw_offset()),
+                    min: end
+                        .raw_offset()
+                        .saturating_sub(start_max.line_start(payload_size).raw_offset()),
                 },
                 (Window(start_min, start_max), End::Window(end_min, end_max)) => {
                     Estimate {
-                        max: end_max.raw_offset() - start_min.raw_offset(),
-                        min: end_min - start_max.line_start(payload_size),
+                        max: end_max.raw_offset().saturating_sub(start_min.raw_offset()),
+                        min: end_min.raw_offset().saturating_sub(
+                            start_max.line_start(payload_size).raw_offset(),
+                        ),
                     }
                 }
             };
